@@ -14,7 +14,7 @@
 (***************************************************************************)
 EXTENDS Naturals, Integers, Sequences, FiniteSets, SequencesExt, TLC
 
-CONSTANTS Num10, Num16, NumC, DecStr, HexStr, StrRank, NumF, NormF, FCanon
+CONSTANTS Num10, Num16, NumC, DecStr, HexStr, StrRank, NumF, NormF, FCanon, HexPfx
 INSTANCE KStore
 
 NoBase == <<"none">>
@@ -89,7 +89,7 @@ UiSet(X, ord, st, n, v) ==
     (IF (v = "y" /\ c.asg \in {"y", "ny"}) \/ (v = "n" /\ c.asg = "ny") THEN SetVal(X, ord, st, n, v) ELSE st)
   ELSE IF c.forced THEN st
   ELSE IF ty \in {"int", "hex", "float"} /\ ~(IsNum(ty, v) /\ InActiveRange(X, A, n, v)) THEN st
-  ELSE SetVal(X, ord, st, n, v)
+  ELSE SetVal(X, ord, st, n, IF ty = "hex" /\ v \in DOMAIN HexPfx THEN HexPfx[v] ELSE v)   \* the dialog prefixes 0x
 
 ResetOne(X, st, n) ==
   IF n \in DOMAIN X.s THEN LET r == ResetSym(X, st.U, st.P, n) IN [st EXCEPT !.U = r.U, !.P = r.P]
